@@ -94,6 +94,10 @@ def run_world(world, collect_rows=False, extra_setup=None):
 def digest_rows(rows, ctx):
     h = hashlib.sha256()
     for r in rows:
+        if ",SCHEDULER_FINISHED," in r:
+            # the last column is the measured (fake) wall-clock duration: solver callbacks poll the
+            # clock a timing-dependent number of times, so it is masked like C09 masks it
+            r = r.rsplit(",", 1)[0]
         h.update(r.encode())
         h.update(b"\n")
     for rec in ctx.history:
